@@ -87,8 +87,15 @@ func RandScenario(r *core.RNG, o Opts) Scenario {
 				t.Name = fmt.Sprintf("U%d", k)
 			}
 			for _, g := range names {
-				if r.Chance(65) {
+				switch {
+				case r.Chance(65):
 					t.Enabled = append(t.Enabled, g)
+				case r.Chance(20): // written "+gengo:<g>=false": the tag is there, the generator is off
+					t.Enabled = append(t.Enabled, g+"=false")
+				case r.Chance(20): // only a sub-option "+gengo:<g>:opt=1": enables <g>
+					t.Enabled = append(t.Enabled, g+":opt=1")
+				case r.Chance(10): // "+gengo:<g>=false" together with a sub-option: off
+					t.Enabled = append(t.Enabled, g+"=false", g+":opt")
 				}
 			}
 			p.Types = append(p.Types, t)
@@ -216,7 +223,14 @@ func RandScenario(r *core.RNG, o Opts) Scenario {
 					st.Helper = r.Bool()
 				}
 				if r.Chance(15) {
-					st.Defers = append(st.Defers, DeferStep{Body: core.Pick(r, []string{"", fill("var D_{g}_{t} = 2\n", name, t.Name)})})
+					d := DeferStep{Body: core.Pick(r, []string{"", fill("var D_{g}_{t} = 2\n", name, t.Name)})}
+					if r.Chance(40) { // a callback that registers callbacks: gengo runs them too (index loop over c.defers)
+						d.Nested = append(d.Nested, DeferStep{Body: fill("var DN_{g}_{t} = 3\n", name, t.Name)})
+						if r.Chance(40) {
+							d.Nested = append(d.Nested, DeferStep{Nested: []DeferStep{{Body: fill("var DNN_{g}_{t} = 4\n", name, t.Name)}}})
+						}
+					}
+					st.Defers = append(st.Defers, d)
 				}
 				if faulty && r.Chance(25) {
 					switch k := r.Intn(8); {
